@@ -114,7 +114,8 @@ theorem tieA_otaa_handle_rx (m : MacState) (st : OtaaState) (o : Gen.OtaaFn.Otaa
       = (macHandleRx m (viewOf o rx) maxPayload snr false).toOption.bind
           (fun r => r.1.map (fun ro => (ro.resp, r.2, o, rx))) := by
   unfold Gen.OtaaFn.Otaa.handle_rx
-  simp only [viewOf, cryptoOf, macHandleRx, hst]
+  try gen_unfold_methods_OtaaFn
+  simp only [viewOf, cryptoOf, macHandleRx, hst, Gen.OtaaFn.DefaultCrypto.new]
   cases hd : rx.as_mut_for_read.check_mic_and_decrypt_in_place ⟨o.network_credentials.appkey.inner⟩ with
   | none =>
     simp only [Option.pure_def, Option.map_some, Option.isSome_none, Bool.false_eq_true, if_false, macAfter, ← hcfg]
